@@ -74,7 +74,7 @@ def tokenize(text, keep_blank_only=False):
             continue
         lead = raw.startswith(' ')
         if lead:
-            raw = raw.lstrip()
+            raw = raw.lstrip(' \r\n')       # blanks and the line breaks among them, nothing else
             if raw == '' and not keep_blank_only:
                 continue
         trail = raw.endswith(d['ele'])
